@@ -502,12 +502,30 @@ class ProgGen:
             if x not in env:
                 env[x] = ("M",)
 
+    @staticmethod
+    def written(st):
+        out = set()
+        if st[0] in ("assign", "append", "remove", "rt"):
+            out.add(st[1])
+        elif st[0] == "if":
+            for x in st[1] + st[2]:
+                out |= ProgGen.written(x)
+        elif st[0] in ("while", "for"):
+            for x in (st[1] if st[0] == "while" else st[2]):
+                out |= ProgGen.written(x)
+        return out
+
     def block(self, env, depth, n):
         out = []
         for _ in range(n):
             s = self.stmt(env, depth)
             if s:
                 out.append(s)
+                if s[0] in ("if", "while", "for") and self.rng.random() < 0.7:
+                    # look at what the block wrote: that is where a stale environment shows
+                    ws = sorted(x for x in self.written(s) if x in env and x in STR_N + LIST_N)
+                    if ws:
+                        out.append(("len", self.rng.choice(ws)))
         if not out:
             x = self.rng.choice(RT_N)
             env.setdefault(x, ("M",))
@@ -518,17 +536,31 @@ class ProgGen:
         env = {}
         pre = []
         rng = self.rng
-        # most names get a value before any block so that Python has them bound on every path
-        for x in rng.sample(INT_N + STR_N + LIST_N + RT_N, rng.randint(3, 7)):
+        # most names get a value before any block so that Python has them bound on every path; about a third of
+        # them get a value unknown at transpile time (so that blocks may write them inside the guard)
+        names = rng.sample(INT_N + STR_N + LIST_N, rng.randint(3, 6))
+        for x in rng.sample(RT_N, rng.randint(1, 2)):
+            pre.append(("rt", x, rng.choice(sorted(RT_PINS)))); env[x] = ("M",)
+        rts = [x for x in RT_N if x in env]
+        for x in names:
+            unknown = rng.random() < 0.35
+            m = rng.choice(rts)
             if x in INT_N:
-                v = rng.randint(0, 9); pre.append(("assign", x, str(v))); env[x] = ("K", v)
+                if unknown:
+                    pre.append(("assign", x, f"{m} + {rng.randint(0, 3)}")); env[x] = ("M",)
+                else:
+                    v = rng.randint(0, 9); pre.append(("assign", x, str(v))); env[x] = ("K", v)
             elif x in STR_N:
-                v = rng.choice(STRS); pre.append(("assign", x, repr(v))); env[x] = ("K", v)
-            elif x in LIST_N:
-                v = [rng.randint(0, 9) if rng.random() < 0.5 else rng.randint(0, 1) for _ in range(rng.randint(0, 4))]
-                pre.append(("assign", x, repr(v))); env[x] = ("K", v)
+                if unknown:
+                    pre.append(("assign", x, f"str({m})")); env[x] = ("M",)
+                else:
+                    v = rng.choice(STRS); pre.append(("assign", x, repr(v))); env[x] = ("K", v)
             else:
-                pre.append(("rt", x, rng.choice(sorted(RT_PINS)))); env[x] = ("M",)
+                v = [rng.randint(0, 9) if rng.random() < 0.5 else rng.randint(0, 1) for _ in range(rng.randint(0, 4))]
+                if unknown:
+                    pre.append(("assign", x, "[" + ", ".join([m] + [str(i) for i in v]) + "]")); env[x] = ("M",)
+                else:
+                    pre.append(("assign", x, repr(v))); env[x] = ("K", v)
         body, _ = self.block(env, 0, rng.randint(3, 8))
         return pre + body
 
